@@ -44,11 +44,16 @@ sh("git checkout -- . ", wt)
 # --- my checks against a scratch worktree with the change applied (driver's VERIF_ALT_REPO mode; /repo is not touched)
 sys.path.insert(0, "/verif/tools")
 from alt import run_alt
-res = run_alt(patch, "%s-%s" % (pid, x), checks)
+# /repo may have moved on under the change (later fix: commits touching the same lines): a hand-ported patch next to
+# the original is what the checks are run against; both are kept
+rebased = os.path.join(src, "patch.rebased.diff")
+res = run_alt(rebased if os.path.exists(rebased) else patch, "%s-%s" % (pid, x), checks)
 meta["checks"] = res
 meta["caught_by"] = [c for c, r in res.items() if r["exit"] == 1]
 dst = os.path.join("/verif/seeded", "%s-%s" % (pid, x)); os.makedirs(dst, exist_ok=True)
 shutil.copy(patch, dst)
+if os.path.exists(rebased):
+    shutil.copy(rebased, dst); meta["rebased"] = "patch.rebased.diff is the same change ported to the current /repo HEAD (the original no longer applies); the checks ran against it"
 for d in demos: shutil.copy(d, os.path.join(dst, os.path.basename(d) + ".txt"))  # .txt: not compiled by anything
 if os.path.exists(os.path.join(src, "README.md")): shutil.copy(os.path.join(src, "README.md"), os.path.join(dst, "agent-README.md"))
 meta["ran"] = ["git apply patch.diff (scratch worktree); go build ./...; %s (with / without the change); go test -vet=off . ./h2spec (with the change)" % demo_cmd,
